@@ -99,7 +99,9 @@ fn read_index_file<T: Read>(mut source: T) -> Result<Vec<ShapeIndex>, Error> {
     // The length comes from the file, it may be anything
     let num_bytes = i64::from(header.file_length) * 2 - i64::from(header::HEADER_SIZE);
     let num_shapes = (num_bytes / INDEX_RECORD_SIZE as i64).max(0);
-    let mut shapes_index = Vec::<ShapeIndex>::with_capacity(num_shapes as usize);
+    let mut shapes_index = Vec::<ShapeIndex>::with_capacity(
+        crate::record::io::bounded_capacity::<ShapeIndex>(num_shapes as usize),
+    );
     for _ in 0..num_shapes {
         let offset = source.read_i32::<BigEndian>()?;
         let record_size = source.read_i32::<BigEndian>()?;
